@@ -315,7 +315,19 @@ async fn run_history(case: &C18Case, obs: &mut Obs) {
 				}
 				let i = act[pick_idx(*pick, act.len())];
 				let sid = w.subs[i].sub_id.clone().unwrap();
-				w.mc.push_text(json!({"jsonrpc":"2.0","method":"n","params":{"subscription":sid,"error":"bye"}}).to_string());
+				let close = json!({"jsonrpc":"2.0","method":"n","params":{"subscription":sid,"error":"bye"}});
+				// singly, alone in an array, or in an array behind a notification nobody listens to
+				match pick % 3 {
+					0 => w.mc.push_text(close.to_string()),
+					1 => {
+						w.mc.push_text(json!([close]).to_string());
+						paths.insert("server-close-in-array");
+					}
+					_ => {
+						w.mc.push_text(json!([{"jsonrpc":"2.0","method":"nobody_listens","params":[1]}, close]).to_string());
+						paths.insert("server-close-in-array");
+					}
+				}
 				w.subs[i].st = SubSt::Done;
 				w.subs[i].ended_by = "server-close";
 				w.subs[i].stream = None; // dropping the ended stream must not matter
